@@ -73,8 +73,16 @@ def run(module, cfg=None, env=None, workers=1, timeout=900, heap="3g", extra=(),
     return TLCResult(rc, out, time.time() - t0)
 
 
+def skip_gates():
+    """VERIF_SKIP_GATES=1 (mutation / seed campaigns only, never a registered command): the model-checking gates do not depend on /repo, so a
+    campaign that runs the same check against hundreds of changed trees skips them; the evidence of such a run is partial and never committed."""
+    return os.environ.get("VERIF_SKIP_GATES") == "1"
+
+
 def check_model(module, cfg=None, workers=16, timeout=1800, heap="8g", extra=(), env=None, allow_violation=False):
     """Model-check an MC_* instance.  Raises MachineryError if TLC did not finish cleanly."""
+    if skip_gates():
+        return TLCResult(0, "(skipped: VERIF_SKIP_GATES)", 0.0)
     r = run(module, cfg, env=env, workers=workers, timeout=timeout, heap=heap, extra=extra)
     if r.error and not (allow_violation and r.violated):
         raise MachineryError("TLC failed on %s (%s): rc=%s\n%s" % (module, cfg or module, r.rc, r.out[-3000:]))
